@@ -95,6 +95,13 @@ def check_C18(ctx):
         for t in ('x0 := %s', 'x0 := x1 + %s', 'x0 := x1 - %s', 'IF x0 = %s THEN GOTO e; e: x0 := 1', 'PROGRAM f IN a DO x0 := a END x0 := RUN f WITH %s END',
                   'DEFINE PRIO %s foo AS x0 := 1 END DEFINE foo', 'DEFINE foo <V> AS x0 := $%s END DEFINE foo 1', 'LOOP x0 DO x1 := %s END'):
             reqs.append('GEN ' + files_req(b'm', {b'm': (t % lit).encode()}))
+    # inputs whose result hinges on a TIE (two definitions of equal priority matching the same span: the first defined wins;
+    # equal-length alternatives; several sites on one line), compiled many times: every compilation gives the same result
+    ties = ['DEFINE <V> * <V> AS RUN mul WITH $0 , $1 END END DEFINE\nDEFINE <ID> * <ID> AS RUN mulid WITH $0 , $1 END END DEFINE\nPROGRAM mul IN a , b DO x0 := a END PROGRAM mulid IN a , b DO x0 := b END x0 := x2 * x3',
+            'DEFINE PRIO 7 sq <ID> AS $0 := 1 END DEFINE\nDEFINE PRIO 7 sq <V> AS x9 := 2 END DEFINE\nDEFINE PRIO 7 <ID> <ID> AS x8 := 3 END DEFINE\nsq a ; sq b',
+            'DEFINE foo AS x := 1 END DEFINE\nDEFINE foo AS x := 2 END DEFINE\nDEFINE foo AS x := 3 END DEFINE\nfoo ; foo ; foo']
+    for t in ties:
+        reqs += ['GEN ' + files_req(b'm', {b'm': t.encode()})] * ctx.n(40, 200)
     order1 = list(range(len(reqs)))
     order2 = list(order1)
     r.shuffle(order2)
@@ -103,6 +110,13 @@ def check_C18(ctx):
     out2 = vlib.run_batch([ctx.harness], [reqs[i] for i in order2], per_line_timeout=30, workers=1)
     res1 = {i: o for i, o in zip(order1, out1)}
     res2 = {i: o for i, o in zip(order2, out2)}
+    same = {}
+    for i in order1:
+        for res in (res1, res2):
+            if same.setdefault(reqs[i], res[i]) != res[i]:
+                ctx.violation('nondeterministic-compile', 'compiling the same input repeatedly gives different results', {'request': reqs[i][:2000]})
+                same[reqs[i]] = None
+                break
     for i in order1:
         ctx.cov['evaluations'] += 1
         if res1[i] != res2[i]:
